@@ -88,7 +88,10 @@ class IndicatorResourceUtilization(Indicator):
         z3_var_horiz = processscheduler.base.active_problem._horizon  # the z3 var
 
         if predefined_horiz is not None:
-            expression = z3.Sum(durations) * int(100 / predefined_horiz)
+            # multiply before dividing: int(100 / horizon) is only exact when the
+            # horizon divides 100 (98% for a fully busy resource with horizon 7,
+            # always 0% with horizon 200)
+            expression = (z3.Sum(durations) * 100) / predefined_horiz
         else:
             expression = (z3.Sum(durations) * 100) / z3_var_horiz
 
